@@ -885,6 +885,9 @@ def call_builtin_type(ip, cls, args, kwargs):
         return wrap_bool(t)
     if cls is float:
         x = args[0] if args else 0.0
+        for k, fn in ip.reg.sym_float.items():
+            if isinstance(x, k):
+                return fn(ip, x)
         if isinstance(x, (SInt, SBool)):
             from . import floats
             return floats.from_int(ip, x)
